@@ -21,7 +21,8 @@ TECHNIQUE = "runtime post-condition monitor per interpolation method vs definiti
 RULE = ("case = series of 4..60 points x x class x y class (or affine data) x method x new grid {original abscissae, "
         "inside, on samples and +-1 ulp beside, beyond both ends (judged for 'constant' only)} through the function "
         "(list / array containers) or Weaver.interpolate(n in 2..500 | explicit grid). non-trivial: grid contains "
-        "points that are not samples; distinct by case index.")
+        "points that are not samples; distinct by case index."
+        " Also: integer-dtype and pandas-Series grids, the documented 'left' keyword of the constant method together with a grid point equal to x[0], Weaver requests after random range-changing histories, method omitted (default linear).")
 REQUIRED_MONITORS = ["c13:at_samples", "c13:constant", "c13:linear", "c13:affine", "c13:weaver_grid", "c13:grid_rejected"]
 ASSUMPTIONS = ["x strictly increasing, >= 4 points, new grid sorted (non-decreasing)",
                "extrapolation of linear / cubic / spline is outside the statement and not judged"]
